@@ -266,3 +266,107 @@ PROPS["C14"] = {"theorems": ["C14_no_writer_reachable"], "runner": c14_runner,
                 "trusted": ["gen_callgraph.py: name-based call resolution with arity filtering (over-approximation); closed lists of "
                             "read-only API roots and of store-mutating primitives; getattr/eval dispatch rejected"],
                 "assumptions": ["no dynamic dispatch through getattr/monkey-patching inside the package (rejected by the translator)"]}
+
+
+# ---- C17: prefix variations (pure function; exhaustive small grammar + random) ----------------------
+def c17_family(lru):
+    """membership in the family of the property: scheme, optional port, contiguous hosts not ending in two www,
+    then stems that do not start with 'h:'"""
+    stems = lru.split(b"|")
+    if not lru.endswith(b"|") or len(stems) < 2:
+        return False
+    stems = stems[:-1]
+    if not stems[0].startswith(b"s:") or b":" in stems[0][2:]:
+        return False
+    i = 1
+    if i < len(stems) and stems[i].startswith(b"t:"):
+        if b":" in stems[i][2:]:
+            return False
+        i += 1
+    hosts = []
+    while i < len(stems) and stems[i].startswith(b"h:"):
+        hosts.append(stems[i])
+        i += 1
+    if len(hosts) >= 2 and hosts[-1] == b"h:www" and hosts[-2] == b"h:www":
+        return False
+    return not any(s.startswith(b"h:") or s.startswith(b"s:") and False for s in stems[i:])
+
+
+def c17_cases(tier, seed):
+    import itertools
+    rng = random.Random(seed)
+    cases = []
+    schemes = [b"http", b"https", b"ftp", b"httpx"]
+    ports = [None, b"80"]
+    hostsets = [[]]
+    names = [b"com", b"a", b"www"]
+    for n in (1, 2, 3):
+        for combo in itertools.product(names, repeat=n):
+            hostsets.append(list(combo))
+    rests = [[], [b"p:x"], [b"p:s:http"], [b"p:s:https", b"q:h:a"], [b"p:h:www"], [b"p:xs:http", b"f:h:com"],
+             [b"p:" + b"y" * 80], [b"p:\x7f\x00"]]
+    for sc, po, hs, rs in itertools.product(schemes, ports, hostsets, rests):
+        st = [b"s:" + sc] + ([b"t:" + po] if po else []) + [b"h:" + h for h in hs] + rs
+        cases.append(b"".join(x + b"|" for x in st))
+    n = 3000 if tier == "thorough" else 400
+    for _ in range(n):
+        cases.append(G.gen_lru(rng, weird=0.4))
+    if tier != "thorough":
+        rng.shuffle(cases)
+        cases = cases[:1400]
+    return cases
+
+
+def c17_runner(prop, tier, seed, replay):
+    cases = c17_cases(tier, seed)
+    if replay:
+        cases = [bytes.fromhex(x) for x in json.load(open(replay))["inputs"]]
+    im = I.Impl("m")
+    violations, stats = [], Counter()
+    try:
+        got = [im.exec(40, [l]) for l in cases]
+        model = C.run_driver([(40, [l]) for l in cases])
+        seen = set()
+        for l, g, m in zip(cases, got, model):
+            fam = c17_family(l)
+            stats["family" if fam else "outside_family"] += 1
+            stats["variations_%s" % (len(g) if isinstance(g, list) else "err")] += 1
+            note = None
+            if fam:
+                if C.is_err(g):
+                    note = "expansion failed: %s" % getattr(g, "detail", g)
+                elif not g or g[0] != l:
+                    note = "the prefix itself is not listed first"
+                elif len(set(g)) != len(g):
+                    note = "an entry is listed twice"
+                else:
+                    for v in g:
+                        gv = im.exec(40, [v])
+                        if C.is_err(gv) or set(gv) != set(g):
+                            note = "not closed: expanding the member %r yields a different set" % v
+                            break
+                if note and note not in seen:
+                    seen.add(note)
+                    violations.append({"property": prop, "failing_input": True, "what": note, "inputs": [l.hex()],
+                                       "lru": repr(l), "got": I.fmt(g)})
+            if not C.eq(g, m[0]) and "corr" not in seen and not (fam and note):
+                seen.add("corr")
+                violations.append({"property": prop, "failing_input": False, "inputs": [l.hex()], "lru": repr(l),
+                                   "broken": "correspondence: lru_variations differs between the implementation and the model",
+                                   "implementation": I.fmt(g), "model": I.fmt(m[0])})
+    finally:
+        im.close()
+    # a correspondence break with a failing input elsewhere: keep only the failing inputs first
+    violations.sort(key=lambda v: 0 if v.get("failing_input") else 1)
+    cov = {"evaluations": len(cases), "distinct_nontrivial": len(set(c for c in cases if c.count(b"|") >= 3)),
+           "rule": "all LRUs of a small grammar (4 schemes x optional port x host lists of length 0..3 over {com,a,www} x 8 tails "
+                   "including 's:http'/'h:' text, an 80-byte stem and bytes around '|') plus random LRUs of the history grammar; each is "
+                   "expanded by the real lru_variations and by the model; for family members the four clauses are checked on the "
+                   "implementation (closure by expanding every member). non-trivial: at least 3 stems",
+           "samples": [repr(c) for c in cases[:6]], "traces_validated_against_impl": len(cases),
+           "distribution": dict(stats), "exhaustive": tier == "thorough"}
+    return {"violations": violations[:4], "known": [], "cov": cov}
+
+
+PROPS["C17"] = {"theorems": ["C17_head", "C17_nodup", "C17_shape", "C17_closed"], "runner": c17_runner, "min_closed": 4,
+                "assumptions": ["family: scheme and port bodies contain no ':' (otherwise the text 'h:' could start inside them)"]}
